@@ -131,8 +131,9 @@ Qed.
          caught_up sL sF' n /\ follower_ok (v_term sL) sF' /\ (k <= N.to_nat (next0 + n))%nat.
 
    is false for the models as written: the last clause of follower_ok (v_applied <= v_lastLogIdx) does
-   not survive a conflict truncation below lastApplied, nor a leader commit index above n against a
-   follower log longer than n (Proofs/ConvergeCounter.v, both by vm_compute).  Everything else holds:
+   not survive a conflict truncation below lastApplied (Proofs/ConvergeCounter.v, by vm_compute; before
+   the fix: commit of the follower's commit rule a leader commit index above n against a follower log
+   longer than n broke it as well).  Everything else holds:
    follower_wf is follower_ok without that clause, and lastApplied stays below max(lastApplied, leader commit). *)
 Theorem catch_up_converges_partial : forall PL PF sL sF n next0,
   leader_ok PL sL n -> follower_ok (v_term sL) sF -> log_matching_premise sL sF -> 1 <= next0 <= n ->
